@@ -84,6 +84,7 @@ class Gen(object):
         self.next_id = 0
         self.style_names = set([u'Nope'])
         self.fname = {}
+        self.ghosts = False
 
     def fresh(self):
         self.next_id += 1
@@ -115,7 +116,62 @@ class Gen(object):
         return [self.w.nid(c) for c in self.w.nodes[p].childNodes]
     def movable(self, p, c):
         """not the caller error the property excludes, not a skeleton node"""
-        return not self.w.is_ancestor_or_self(c, p) and c not in self.w.roots
+        return not self.w.is_ancestor_or_self(c, p) and c not in self.w.roots and not self.lists_reach(c, p)
+    def lists_reach(self, c, p):
+        """is p below (or equal to) c when one follows the CHILD LISTS (after pointer surgery - 'ghost' ops - lists and parent
+        pointers can disagree; putting a node under something its own child lists lead to is the excluded caller error)"""
+        if not self.ghosts:
+            return False
+        target = self.w.nodes[p]; seen = set(); todo = [self.w.nodes[c]]
+        while todo:
+            n = todo.pop()
+            if n is target:
+                return True
+            if id(n) in seen:
+                continue
+            seen.add(id(n))
+            todo.extend(getattr(n, 'childNodes', ()))
+        return False
+    # ---- pointer surgery: nodes whose parent pointer and the child lists disagree
+    def ghost_ops(self):
+        """candidate surgery ops in the live state: (kind, op)"""
+        E = self.elems(); T = self.texts(); out = []
+        N = self.w.nodes
+        for c in E + T:
+            if c in self.w.roots:
+                continue
+            par = self.w.nid(N[c].parentNode)
+            listed = par not in (None, 'X') and any(k is N[c] for k in N[par].childNodes)
+            if listed:
+                out.append(('copy', ['ghost', 'copy', None, c]))
+                out.append(('handrm', ['ghost', 'handrm', par, c]))
+            elif N[c].parentNode is None:
+                for p in E:
+                    if p != c and self.movable(p, c):
+                        out.append(('setparent', ['ghost', 'setparent', c, p]))
+        return out
+    def ghost_op(self):
+        cands = self.ghost_ops()
+        if not cands:
+            return None
+        kind = self.rng.choice(sorted(set(k for k, _ in cands)))
+        op = list(self.rng.choice([o for k, o in cands if k == kind]))
+        return self.claim(op)
+    def claim(self, op):
+        """give a surgery op its new id and remember that lists and pointers may now disagree"""
+        if op[1] == 'copy':
+            op[2] = self.fresh()
+            self.fname[op[2]] = self.fname.get(op[3])
+        self.ghosts = True
+        return op
+    def stale(self):
+        """(g, p): node g says 'my parent is p' but p's child list does not hold it"""
+        N = self.w.nodes; out = []
+        for g in self.elems() + self.texts():
+            p = self.w.nid(N[g].parentNode)
+            if p not in (None, 'X') and g not in self.w.roots and N[p].nodeType == 1 and not any(k is N[g] for k in N[p].childNodes):
+                out.append((g, p))
+        return out
     def qname(self, i):
         return getattr(self.w.nodes[i], 'qname', None)
     def would_allow(self, p, qn):
@@ -165,6 +221,13 @@ class Gen(object):
                 return self.ctor_op(True, None, with_parent=(k == 'ctorp'))
         return ['seta', E[-1], 'stylename', u'St1'] if self.fname.get(E[-1]) == 'P' else ['rm', E[0], E[0]]
 
+    def meta(self, base):
+        """now and then a name / value that is a directive to whatever formats a message or a key out of it"""
+        r = self.rng
+        if r is not None and r.random() < 0.35:
+            return base + r.choice([u'%', u'%s', u'%(x)s', u'%d', u'{}', u'{0}', u'{', u'\\', u'50%'])
+        return base
+
     def ctor_op(self, good, flaw, with_parent):
         """a factory call; flaw in (None, 'required', 'unknown', 'value', 'text', 'cdata', 'child', 'required+text')"""
         r = self.rng
@@ -180,12 +243,12 @@ class Gen(object):
         else:
             fname = r.choice(['Span', 'Style', 'P'])
         kw = []
-        sname = u'S%d' % i
+        sname = self.meta(u'S%d' % i)
         # valid arguments first
         if fname == 'H': kw.append(['outlinelevel', r.choice([1, 2])])
-        if fname == 'Section': kw.append(['name', u'sec%d' % i])
+        if fname == 'Section': kw.append(['name', self.meta(u'sec%d' % i)])
         if fname == 'Style':
-            kw += [['name', sname], ['family', r.choice([u'paragraph', u'text'])], ['displayname', u'd%d' % i]]
+            kw += [['name', sname], ['family', r.choice([u'paragraph', u'text'])], ['displayname', self.meta(u'd%d' % i)]]
         if fname in ('P', 'H', 'Span') and r.random() < 0.5: kw.append(['stylename', u'St1'])
         if fname in ('P', 'H', 'Span') and r.random() < 0.4 and flaw not in ('text', 'cdata'):
             kw.insert(0, ['text', r.choice([u'hello', u''])]); tid = self.fresh()
@@ -196,12 +259,12 @@ class Gen(object):
             kw = [x for x in kw if x[0] not in ('outlinelevel', 'text')]
             kw.insert(0, ['text', u'heading']); tid = self.fresh()
         elif flaw == 'unknown':
-            kw.insert(r.randint(0, len(kw)), ['bogus', u'1'])
+            kw.insert(r.randint(0, len(kw)), [r.choice(['bogus', 'bogus', 'bo%sgus', 'bo{}gus']), self.meta(u'1')])
         elif flaw == 'value':
             if fname == 'Style':
-                kw = [x if x[0] != 'family' else ['family', u'bogus'] for x in kw]
+                kw = [x if x[0] != 'family' else ['family', self.meta(u'bogus')] for x in kw]
             else:
-                kw.append(['protected', u'maybe'])
+                kw.append(['protected', self.meta(u'maybe')])
         elif flaw == 'text':
             kw.insert(0, ['text', u'abc']); tid = self.fresh()
         elif flaw == 'cdata':
@@ -241,14 +304,14 @@ class Gen(object):
             out.append(('addText:text', ['addt', p, self.fresh(), u'no text here']))
             out.append(('addCDATA:text', ['addc', p, self.fresh(), u'no cdata here']))
         for e in some([e for e in E if self.fname.get(e) in ('P', 'H', 'Span', 'Section', 'List', 'Style')]):
-            out.append(('setAttribute:unknown', ['seta', e, 'bogus', u'1']))
+            out.append(('setAttribute:unknown', ['seta', e, r.choice(['bogus', 'bo%sgus', 'bo{0}gus']), self.meta(u'1')]))
             out.append(('removeAttribute:unknown', ['rma', e, 'bogus']))
         for e in some([e for e in E if self.fname.get(e) == 'Style']):
-            out.append(('setAttribute:value', ['seta', e, 'family', u'bogus']))
-            out.append(('setAttrNS:value', ['setns', e, D.STYLENS, u'family', u'bogus']))
+            out.append(('setAttribute:value', ['seta', e, 'family', self.meta(u'bogus')]))
+            out.append(('setAttrNS:value', ['setns', e, D.STYLENS, u'family', self.meta(u'bogus')]))
         for e in some([e for e in E if self.fname.get(e) == 'Section']):
-            out.append(('setAttribute:value', ['seta', e, 'protected', u'maybe']))
-            out.append(('setAttrNS:value', ['setns', e, D.TEXTNS, u'protected', u'maybe']))
+            out.append(('setAttribute:value', ['seta', e, 'protected', self.meta(u'maybe')]))
+            out.append(('setAttrNS:value', ['setns', e, D.TEXTNS, u'protected', self.meta(u'maybe')]))
         for e in some([e for e in E if self.fname.get(e) in ('P', 'H', 'Span') and (D.TEXTNS, u'style-name') not in self.w.nodes[e].attributes]):
             out.append(('removeAttribute:absent', ['rma', e, 'stylename']))
         for p in some(E):
@@ -265,6 +328,23 @@ class Gen(object):
                     out.append(('insertBefore:notachild', ['insb', p, n, ref]))
             for c in some([c for c in non if c not in self.w.roots]):
                 out.append(('removeChild:notachild', ['rm', p, c]))
+        # a node whose parent POINTER names p although p's child list does not hold it (shallow copy of a child, a child struck
+        # from the list by hand, a parent assigned by hand): as reference child / child to remove it is "not a child" - whatever
+        # the new child is and wherever that lives; as the node to insert, its "parent" cannot give it up
+        stale = self.stale(); stale_nodes = set(g for g, _ in stale)
+        for g, p in some(stale):
+            ks = self.kids(p)
+            cn = [n for n in E + T if self.movable(p, n) and n != g]
+            att = [n for n in cn if self.w.nodes[n].parentNode is not None and n not in ks and n not in stale_nodes]
+            for n in (att[:2] + [n for n in cn if n in ks][:1] + [n for n in cn if self.w.nodes[n].parentNode is None][:1]) if pick_all else (some(att) or some(cn)):
+                out.append(('insertBefore:stale-ref', ['insb', p, n, g]))
+            out.append(('removeChild:stale-ref', ['rm', p, g]))
+            for q in some([q for q in E if self.movable(q, g)]):
+                out.append(('appendChild:stale-new', ['append', q, g]))
+                qk = self.kids(q)
+                out.append(('insertBefore:stale-new', ['insb', q, g, qk[0] if qk and qk[0] != g else None]))
+                if self.w.nodes[g].nodeType == 1 and self.would_allow(q, self.qname(g)):
+                    out.append(('addElement:stale-new', ['adde', q, g]))
         for t in some(T):
             for c in some([c for c in E + T if c != t and c not in self.w.roots]):
                 out.append(('appendChild:textparent', ['append', t, c]))
@@ -275,7 +355,8 @@ class Gen(object):
 
 # ---------------------------------------------------------------------------------------------
 ENTRY = {'adde': 'addElement', 'addt': 'addText', 'addc': 'addCDATA', 'seta': 'setAttribute', 'setns': 'setAttrNS',
-         'rma': 'removeAttribute', 'insb': 'insertBefore', 'rm': 'removeChild', 'append': 'appendChild', 'new': 'new'}
+         'rma': 'removeAttribute', 'insb': 'insertBefore', 'rm': 'removeChild', 'append': 'appendChild', 'new': 'new',
+         'ghost': 'pointer-surgery'}
 def entry(op):
     """the entry point of a call (part of the finding signature)"""
     if op[0] == 'ctor':
@@ -296,6 +377,11 @@ class History(object):
     def do(self, op, label=None, bracket=True):
         w = self.w
         if bracket:
+            if self.g.ghosts and w.doc is not None:
+                # after pointer surgery the document's element index may list nodes the tree no longer holds; the name lookups of
+                # the snapshot re-walk the tree and drop them.  Let that happen before "before" is taken: the comparison is
+                # about what the CALL does, not about what the snapshot's own lookups do
+                deep_snapshot(w, self.g.style_names)
             before = deep_snapshot(w, self.g.style_names)
         line = w.line(op)
         ans = w.apply(op)
@@ -351,6 +437,10 @@ def replay_ops(attached, ops):
             h.g.fname[op[2]] = op[3]
         if op[0] == 'ctor':
             h.g.fname[op[1]] = op[2]
+        if op[0] == 'ghost':
+            h.g.ghosts = True
+            h.do(op, bracket=False)
+            continue
         h.do(op)
         if h.failed:
             break
@@ -364,6 +454,8 @@ def shrink(attached, ops, sig):
         changed = False
         for i in range(len(cur) - 2, -1, -1):
             if cur[i][0] == 'new':
+                continue
+            if cur[i][0] == 'ghost' and cur[i][1] == 'copy' and any(cur[i][2] in o[1:] for o in cur[i + 1:]):
                 continue
             cand = cur[:i] + cur[i + 1:]
             try:
@@ -519,8 +611,20 @@ def hook_history(ops):
     doc = OpenDocumentText()
     secs = [doc.styles, doc.automaticstyles]
     st = {}
-    names = (u'A', u'B', u'MA', u'Nope')
+    # every name a call of this history mentions, what a clash renames it to, and a name nobody uses; plus (at snapshot time)
+    # the names the style objects carry right now (the library stores some names encoded: 'Gray 50%' -> 'Gray_20_50%')
+    given = set([u'A', u'B', u'MA', u'Nope'])
+    for op in ops:
+        if op[0] in ('mk', 'ctor', 'rename'):
+            given.add(op[2])
+    given |= set(u'M' + n for n in given)
     def snap():
+        names = set(given)
+        for e in st.values():
+            n = e.attributes.get((D.STYLENS, u'name'))
+            if n is not None:
+                names.add(n); names.add(u'M' + n)
+        names = sorted(names)
         def walk(n, depth):
             if depth > 50: return ['DEEP']
             if n.nodeType == 1:
@@ -557,6 +661,9 @@ def hook_history(ops):
     return None
 
 
+META_NAMES = [u'Gray 50%', u'100%', u'a%sb', u'%(x)s', u'%d%%', u'%', u'{}', u'{0}', u'{x', u'a\\b', u'a\\', u'%s %s %s']
+
+
 def hook_histories(chk, n):
     r = chk.rng
     fixed = [
@@ -568,15 +675,29 @@ def hook_histories(chk, n):
         [['mk', 0, u'MA'], ['mk', 1, u'A'], ['mk', 2, u'A'], ['adde', 0, 0], ['adde', 0, 1], ['adde', 1, 2]],
     ]
     hist = list(fixed)
-    for _ in range(n):
-        ops = [['mk', i, r.choice([u'A', u'A', u'B', u'MA'])] for i in range(4)]
+    # names that are formatting directives to whatever builds a message / a key out of them (%-formatting, str.format, escapes):
+    # every clash scenario x every entry point, once per name
+    for nm in META_NAMES:
+        hist.append([['mk', 0, nm], ['mk', 1, nm], ['adde', 0, 0], ['adde', 1, 1]])
+        hist.append([['mk', 0, nm], ['mk', 1, nm], ['append', 1, 0], ['append', 0, 1]])
+        hist.append([['mk', 0, nm], ['mk', 1, nm], ['adde', 1, 0], ['insb', 1, 1]])
+        hist.append([['mk', 0, nm], ['adde', 0, 0], ['ctor', 1, nm, 1]])
+        hist.append([['mk', 0, nm], ['mk', 1, u'B'], ['adde', 0, 0], ['adde', 1, 1], ['rename', 1, nm], ['rm', 1], ['adde', 0, 1]])
+        hist.append([['mk', 0, u'M' + nm], ['mk', 1, nm], ['mk', 2, nm], ['adde', 0, 0], ['adde', 0, 1], ['adde', 1, 2]])
+    for j in range(n):
+        if j % 2 == 0:
+            pool = [u'A', u'A', u'B', u'MA']; pool2 = [u'A', u'B']
+        else:
+            a = r.choice(META_NAMES); b = r.choice(META_NAMES)
+            pool = [a, a, b, u'M' + a]; pool2 = [a, b]
+        ops = [['mk', i, r.choice(pool)] for i in range(4)]
         nxt = 4
         for _ in range(r.randint(3, 12)):
             k = r.choice(['adde', 'append', 'insb', 'ctor', 'rm', 'rename'])
             if k in ('adde', 'append', 'insb'): ops.append([k, r.randint(0, 1), r.randint(0, 3)])
-            elif k == 'ctor': ops.append(['ctor', r.randint(0, 1), r.choice([u'A', u'B']), nxt]); nxt += 1
+            elif k == 'ctor': ops.append(['ctor', r.randint(0, 1), r.choice(pool2), nxt]); nxt += 1
             elif k == 'rm': ops.append(['rm', r.randint(0, 3)])
-            else: ops.append(['rename', r.randint(0, 3), r.choice([u'A', u'B'])])
+            else: ops.append(['rename', r.randint(0, 3), r.choice(pool2)])
         hist.append(ops)
     for ops in hist:
         res = hook_history(ops)
@@ -642,10 +763,17 @@ def run(chk, replay=None):
         for op in h.g.prologue():
             h.do(op, bracket=False)
         n = rng.randint(3, 14)
-        for _ in range(n):
+        surgery = (s % 4 in (1, 2))
+        for step_no in range(n):
             if h.failed:
                 break
-            if rng.random() < 0.4:
+            if surgery and step_no >= 2 and rng.random() < 0.25:
+                op = h.g.ghost_op()
+                if op is not None:
+                    h.do(op, bracket=False)
+                    chk.count('surgery_' + op[1])
+                    continue
+            if rng.random() < (0.55 if h.g.ghosts else 0.4):
                 cands = h.g.bad_ops()
                 if cands:
                     label, op = rng.choice(cands)
@@ -665,6 +793,7 @@ def run(chk, replay=None):
         chk.case(json.dumps([attached, h.ops]), nontrivial=h.raised > 0,
                  sample={'attached': attached, 'ops': body[:5], 'raised': h.raised} if s < 4 else None)
         chk.count('history_attached' if attached else 'history_free'); chk.count('raising_calls', h.raised)
+        if h.g.ghosts: chk.count('history_with_pointer_surgery')
         if h.failed:
             report(chk, h)
     # ---- every factory function with parent=, all calling conventions
@@ -718,5 +847,49 @@ def run(chk, replay=None):
                             if c != 'X' and c not in base.w.roots:
                                 nxt.append(path + [['rm', p, c]])
             frontier = nxt
+    # ---- systematic, with pointer surgery: two parents with children, then every kind of surgery on every eligible node, then
+    # every designed-to-fail call (incl. the stale-reference ones) in that state
+    nsurg = 0
+    for attached in (True, False):
+        base = History(chk, attached, rng)
+        pro = base.g.prologue()
+        for op in pro:
+            base.do(op, bracket=False)
+        E = [i for i in base.g.elems() if i not in base.w.roots]
+        byf = lambda f: [i for i in E if base.g.fname.get(i) == f]
+        sec, ps, span, hd, lst = byf('Section')[0], byf('P'), byf('Span')[0], byf('H')[0], byf('List')[0]
+        T = base.g.texts()
+        top = sorted(base.w.roots)[0] if attached else None
+        build = ([['append', top, sec]] if attached else []) + [
+            ['append', sec, ps[0]], ['append', sec, hd], ['append', ps[0], span], ['append', ps[0], T[0]], ['append', span, T[1]]]
+        for op in build:
+            base.do(op, bracket=False)
+        gops = base.g.ghost_ops()
+        if not thorough:
+            sp = [x for x in gops if x[0] == 'setparent']
+            rng.shuffle(sp)
+            gops = [x for x in gops if x[0] != 'setparent'] + sp[:8]
+        for kind, gop in gops:
+            st8 = History(chk, attached, rng)
+            st8.g.next_id = base.g.next_id; st8.g.fname = dict(base.g.fname)
+            for o in pro + build:
+                st8.do(o, bracket=False)
+            gop = st8.g.claim(list(gop))
+            st8.do(gop, bracket=False)
+            nsurg += 1
+            for label, op in st8.g.bad_ops(pick_all=True):
+                if 'stale' not in label and not (thorough and any(x in label for x in ('notachild', 'textparent', 'addElement'))):
+                    continue
+                h = History(chk, attached, rng)
+                h.g.next_id = st8.g.next_id + 50; h.g.fname = dict(st8.g.fname); h.g.ghosts = True
+                for o in pro + build + [gop]:
+                    h.do(o, bracket=False)
+                ans = h.do(op, label)
+                chk.count('surgery-systematic ' + label + (' refused' if ans != 'ok' else ' NOT-refused'))
+                chk.case(json.dumps([attached, 'surgery', gop, op]), nontrivial=ans != 'ok')
+                h.correspond(drv)
+                if h.failed:
+                    report(chk, h)
+    chk.notes.append('systematic part with pointer surgery: %d states' % nsurg)
     chk.notes.append('systematic part: %d distinct states (histories <= %d moves), every designed-to-fail call in each' % (nstates, depth))
     return chk.finish()
